@@ -121,6 +121,9 @@ Cache.vos Cache.vok Cache.required_vos: Cache.v Graph.vos Sched.vos Dataflow.vos
 CacheFacts.vo CacheFacts.glob CacheFacts.v.beautified CacheFacts.required_vo: CacheFacts.v Graph.vo GraphFacts.vo Sched.vo Dataflow.vo Args.vo ArgsFacts.vo Cache.vo
 CacheFacts.vio: CacheFacts.v Graph.vio GraphFacts.vio Sched.vio Dataflow.vio Args.vio ArgsFacts.vio Cache.vio
 CacheFacts.vos CacheFacts.vok CacheFacts.required_vos: CacheFacts.v Graph.vos GraphFacts.vos Sched.vos Dataflow.vos Args.vos ArgsFacts.vos Cache.vos
+Greedy.vo Greedy.glob Greedy.v.beautified Greedy.required_vo: Greedy.v Graph.vo Sched.vo
+Greedy.vio: Greedy.v Graph.vio Sched.vio
+Greedy.vos Greedy.vok Greedy.required_vos: Greedy.v Graph.vos Sched.vos
 Concurrent.vo Concurrent.glob Concurrent.v.beautified Concurrent.required_vo: Concurrent.v Graph.vo Sched.vo Dataflow.vo
 Concurrent.vio: Concurrent.v Graph.vio Sched.vio Dataflow.vio
 Concurrent.vos Concurrent.vok Concurrent.required_vos: Concurrent.v Graph.vos Sched.vos Dataflow.vos
